@@ -51,6 +51,12 @@ pub fn seed_points(thorough: bool) -> Vec<(&'static str, Point)> {
     q.d[12] = 1; // folding 4
     q.d[8] = 0; // 3 queries
     v.push(("quadratic extension, folding 4", q));
+    // (n) as many queries as the domain can take: 27 queries over 32 LDE points (positions repeat, the set of
+    //     positions is most of the domain; nonces whose position sets coincide are least unlikely here)
+    let mut nq = family::base_point();
+    nq.d[2] = idx(&family::LENS, 8);
+    nq.d[8] = idx(&family::QUERIES, 27);
+    v.push(("27 queries over 32 LDE points", nq));
     if thorough {
         let mut i8 = family::base_point();
         i8.d[12] = idx(&family::FOLDS, 8);
@@ -113,6 +119,50 @@ pub fn learn_positions<B: Fld, H: ElementHasher<BaseField = B> + Send + Sync>(pr
         }
     }
     vec![]
+}
+
+/// Query positions the SPECIFIED coin draws for this proof, computed without the library's coin: the recording coin
+/// only supplies the messages (seed elements, reseed digests, the draw_integers request); the state is rebuilt from
+/// the documented definition - new: seed = hash_elements(seed elements); reseed: seed = merge(seed, data);
+/// draw_integers: seed = merge_with_int(seed, nonce), then the i-th value is the first 8 bytes (little endian) of
+/// merge_with_int(seed, i), i = 1.., reduced to the domain. Returns the sorted, de-duplicated positions.
+pub fn reference_positions<B: Fld, H: ElementHasher<BaseField = B> + Send + Sync>(proof: &Proof, pubs: &SpecPub<B>) -> Option<Vec<usize>> {
+    use crypto::Digest;
+    let _ = take_log();
+    let _ = verify_with::<B, H, RecCoin<H>>(proof.clone(), pubs, &lenient());
+    let log = take_log();
+    let mut seed: Option<H::Digest> = None;
+    for ev in log.iter() {
+        match ev {
+            Ev::New(bytes) => {
+                let mut r = SliceReader::new(bytes);
+                let mut elems: Vec<B> = vec![];
+                while utils::ByteReader::has_more_bytes(&r) {
+                    elems.push(B::read_from(&mut r).ok()?);
+                }
+                seed = Some(H::hash_elements(&elems));
+            },
+            Ev::Reseed(bytes) => {
+                let d = H::Digest::read_from(&mut SliceReader::new(bytes)).ok()?;
+                seed = Some(H::merge(&[seed?, d]));
+            },
+            Ev::Ints { k, domain, nonce, .. } => {
+                let s = H::merge_with_int(seed?, *nonce);
+                let mut v: Vec<usize> = (1..=*k as u64)
+                    .map(|i| {
+                        let d = H::merge_with_int(s, i);
+                        let b: [u8; 8] = d.as_bytes()[..8].try_into().unwrap();
+                        (u64::from_le_bytes(b) & (*domain as u64 - 1)) as usize
+                    })
+                    .collect();
+                v.sort_unstable();
+                v.dedup();
+                return Some(v);
+            },
+            _ => {},
+        }
+    }
+    None
 }
 
 struct Integrity<'a> {
@@ -191,12 +241,14 @@ impl<'a> PairFn for Integrity<'a> {
                                 }
                             }
                         }
-                        if let Some((FKind::Nonce, _, _)) = space.field_kind_at(off) {
-                            let p2pos = learn_positions::<B, H>(&p2, &seed.pubs);
-                            if p2pos == positions {
-                                out.class("equivalent nonce: same query positions (another valid proof of the same statement)");
-                                continue;
-                            }
+                    }
+                    // another nonce that leads to the same set of positions is another valid proof of the same
+                    // statement - decided with the SPECIFIED coin (reference_positions), not with the library's: a coin
+                    // that does not absorb the nonce properly makes neighbouring nonces equivalent
+                    if let Some((FKind::Nonce, _, _)) = space.field_kind_at(first_diff(&seed.bytes, &bytes)) {
+                        if reference_positions::<B, H>(&p2, &seed.pubs).as_ref() == Some(&positions) {
+                            out.class("equivalent nonce: same query positions (another valid proof of the same statement)");
+                            continue;
                         }
                     }
                     if is_partition_edit(&space, &seed.bytes, &bytes) && partition_mapping_unchanged(&p2, &positions, st) {
